@@ -10,4 +10,14 @@ PROPS = {
                         "data races are decided by a vector-clock detector on rewritten struct-field accesses",
                         "porcupine v1.3.0 decides linearizability of each recorded history"],
     },
+    "C18": {
+        "parts": [{"pkg": "chunkparser", "test": "TestVerifC18", "shards": {"quick": 12, "thorough": 16}}],
+        "clauses": ["C18.concat", "C18.place", "C18.init", "C18.err", "C18.term"],
+        "level": "model_checking",
+        "rule": "io.Reader answers are explorer choices: every fragmentation of 6-7 small synthetic box streams x initial buffer sizes, "
+                "every truncation x every buffer size, every injected error position, realistic init/chunked streams with <=2/3 "
+                "deviations from the full answer, impossible size fields in every box position",
+        "assumptions": ["streams are built from the bundled chunkparser testdata and synthetic 8-10 byte boxes",
+                        "termination is decided by a 20 s watchdog on operations that take microseconds"],
+    },
 }
